@@ -66,13 +66,38 @@ Proof.
 Qed.
 Print Assumptions C02_stationary_rows.
 
-(* not proved (decided by correspondence + exact Fraction oracle on every run):
-   - gth_solve on a REDUCIBLE matrix: the support is exactly one recurrent class (which one depends on the numbering);
-   - distinct rows of stationary_distributions belong to distinct classes (true by construction: map over the classes);
-   - the floating-point accuracy (component-wise relative error n*1e-13) is measured, not proved. *)
-Definition C02_gth_support_full : Prop := forall n A, (1 <= n)%nat -> offnn n A ->
+(* ANY input, reducible included: the result is positive exactly on ONE recurrent class of the positive-entry graph
+   (the communication class of the state at which the reduction loop exits) and zero elsewhere; together with
+   C02_gth_nonneg_normalised and C02_gth_stationary it is a stationary probability vector of that class *)
+Theorem C02_gth_support : forall n A, (1 <= n)%nat -> offnn n A ->
   exists c, In c (C03.Model.sink_spec n (@pos_edge Q NumQ A)) /\
     forall i, (i < n)%nat -> (0 < nth i (gthQ n A) 0 <-> In i c).
+Proof. exact gth_support. Qed.
+Print Assumptions C02_gth_support.
+
+(* no subtraction => no cancellation, for EVERY Num instance (PrimFloat included) under explicit closure hypotheses on
+   a set nn of "non-negative" values: every component of the result lies in nn. The hypotheses are premises of the
+   theorem (for floats they can fail only through overflow/NaN); C02_gth_nn_Q discharges them for Q. *)
+Theorem C02_gth_nn_generic : forall (T : Type) (N : Num T) (nn : T -> Prop),
+  nn nzero -> nn none_ ->
+  (forall a b, nn a -> nn b -> nn (nadd a b)) ->
+  (forall a b, nn a -> nn b -> nn (nmul a b)) ->
+  (forall a b, nn a -> nleb b nzero = false -> nn (ndiv a b)) ->
+  (forall a, nn a -> nleb (nadd a none_) nzero = false) ->
+  (forall a b, nleb a nzero = false -> nn b -> nleb (nadd a b) nzero = false) ->
+  forall n (A : list (list T)), (1 <= n)%nat ->
+  (forall i j, (i < n)%nat -> (j < n)%nat -> i <> j -> nn (mget A i j)) ->
+  Forall nn (gth n A).
+Proof. intros T N nn h0 h1 h2 h3 h4 h5 h6 n A. exact (@gth_nn_generic T N nn h0 h1 h2 h3 h4 h5 h6 n A). Qed.
+Print Assumptions C02_gth_nn_generic.
+
+Theorem C02_gth_nn_Q : forall n (A : list (list Q)), (1 <= n)%nat -> offnn n A -> Forall (fun v => 0 <= v) (gthQ n A).
+Proof. exact gth_nn_Q. Qed.
+Print Assumptions C02_gth_nn_Q.
+
+(* not proved (decided by correspondence + exact Fraction oracle on every run):
+   - independence of overwrite / use_jit / memory order, argument untouched unless overwrite;
+   - the floating-point accuracy (component-wise relative error n*1e-13) is measured, not proved. *)
 
 (* hypotheses are satisfiable: an irreducible stochastic matrix and a reducible one (early exit) *)
 Definition ex_P : list (list Q) := [[1#2; 1#2; 0]; [1#4; 1#2; 1#4]; [0; 1#3; 2#3]].
